@@ -99,15 +99,20 @@ def run(ctx):
     ctx.floor("C10.R1", n1, 2, "collector thread entry functions")
 
     # ---------------------------------------------------------------- R2 reclaim guard
-    n2 = 0
+    # decided on the collector thread's entry function with the collector's own helpers inlined, so that
+    # passing the mark / the cursor through parameters of private helpers does not change the verdict
+    n2a = 0
     for fn in gcs:
-        ig = IG(fn, inline=lambda a, b, c: False)
+        if (fn.tu.path, fn.id) in called or fn.kind in ("ctor", "dtor"):
+            continue
+        ig = IG(fn, inline=gc_inline)
         live = ig.live_nodes()
         invs = [n for n in ig.ev_nodes() if n.id in live and n.ev["e"] == "call" and n.ev.get("name") == "operator()"
                 and strip_cast(n.ev.get("this", {})).get("n") == "reclaimer"]
-        if not invs:
+        pops = list(L.call_nodes(ig, callee_re=POP_RE, live=live))
+        if not invs or not pops:
             continue
-        n2 += 1
+        n2a += 1
         inst = L.short(fn)
         lwm = [n for n in L.call_nodes(ig, callee_re=r"^babylon::Epoch::low_water_mark$", live=live)]
         lwm_ids = set(n.id for n in lwm)
@@ -132,6 +137,28 @@ def run(ctx):
             ctx.ob("C10.R2a", inst, bool(ge) and bool(lwm) and i.id not in r, i.where,
                    "reclaimer can be invoked without the test 'task.lowest_epoch <= low_water_mark()' having held: "
                    "it may run while a region that can still see the object is open", site="%s@invoke" % inst)
+            # the mark must be read after the task was popped: low_water_mark() is UINT64_MAX while no region is
+            # open and *drops* when one opens, so a mark sampled before the pop is not conservative
+            bad = None
+            for p_ in pops:
+                if ig.path_exists(p_, i, avoiding=lwm):
+                    bad = p_
+            detail = ig.describe_path(ig.witness_path(bad, i, removed=lwm)) if bad is not None else None
+            ctx.ob("C10.R2e", inst, bad is None, (bad.where if bad else i.where),
+                   "a reclaimer popped from the queue can be invoked under a low water mark that was read before the "
+                   "pop: a region opened (and the object retired) between the scan and the pop is not seen, so the "
+                   "reclaimer runs while that region is still open", detail, site="%s@stale-mark" % inst)
+    ctx.floor("C10.R2a", n2a, 2, "collector entry functions that invoke reclaimers")
+    n2 = 0
+    for fn in gcs:
+        ig = IG(fn, inline=lambda a, b, c: False)
+        live = ig.live_nodes()
+        invs = [n for n in ig.ev_nodes() if n.id in live and n.ev["e"] == "call" and n.ev.get("name") == "operator()"
+                and strip_cast(n.ev.get("this", {})).get("n") == "reclaimer"]
+        if not invs:
+            continue
+        n2 += 1
+        inst = L.short(fn)
         # counting discipline
         rets = [n for n in ig.ev_nodes() if n.id in live and n.ev["e"] == "ret" and "v" in n.ev]
         cnt = None
